@@ -403,8 +403,10 @@ func (k *c14) RunCase(c *core.Ctx, i int) {
 			}
 		}
 		args = append(args, target)
-		ex := core.Cmd{Argv: append([]string{c.Knut}, args...), Dir: dir, Timeout: 20 * time.Second, ASLimit: 4 << 30, Fsize: -1, UID: sc.uid}
-		res := core.Exec(ex)
+		// the number of CPUs is part of the configuration: a third of the cases run on one or two
+		env := []string{"GOMAXPROCS=" + []string{"1", "2", "16", "16", "16", "4"}[i%6]}
+		ex := core.Cmd{Argv: append([]string{c.Knut}, args...), Dir: dir, Env: env, Timeout: 20 * time.Second, ASLimit: 4 << 30, Fsize: -1, UID: sc.uid}
+		res := execCounted(c, ex)
 		c.Eval(1)
 		input := sc.files[sc.main]
 		why, key := "", ""
@@ -460,7 +462,7 @@ func (k *c14) RunCase(c *core.Ctx, i int) {
 			fullKey := c14KindKey(sc.kind) + ":" + cmd.key + ":" + key
 			c.Violation(core.Witness{Case: i, Key: fullKey,
 				Why:   fmt.Sprintf("scenario %q, `knut %s`: %s", sc.kind, strings.Join(args, " "), why),
-				Files: sc.files, Cmd: knutCmd(c, nil, args...),
+				Files: sc.files, Cmd: knutCmd(c, env, args...),
 				Extra: map[string]string{"stderr.txt": core.Trunc(string(res.Stderr), 20000), "stdout.txt": core.Trunc(string(res.Stdout), 20000)}})
 			if key == "hang" || key == "memory" {
 				// the remaining commands load the same journal; do not spend minutes re-finding it
